@@ -49,7 +49,7 @@ def _plain_str(rng):
 def _plain_json(rng, depth=0):
     r = rng.random()
     if r < 0.3:
-        return rng.choice([0, 1, -1, 42, 2 ** 40, -7])
+        return rng.choice([0, 1, -1, 42, 2 ** 40, -7, 1.5, -0.0, 1.0, 1e300, 0.1])
     if r < 0.4:
         return rng.choice([True, False])
     if r < 0.5:
@@ -80,7 +80,11 @@ def _gen_ns(rng):
         ns.append(['%s.o%d' % (rng.choice(homes), i), ['obj']])
     if rng.random() < 0.5:           # a component class living in a nested namespace
         ns.append(['%s.K' % rng.choice(homes[1:]), ['comp', rng.random() < 0.5, rng.random() < 0.5]])
-    vals = [7, 'plain text', '${%s.o0}' % MOD, ['${%s.o0}' % MOD, 1], '$ res{r}', '', {'k1': 1}]
+    first_obj = [n for n, s in ns if s[0] == 'obj'][0]
+    # string-valued attributes that themselves look like an object reference:
+    # the object pass must not be applied to its own result
+    vals = [7, 'plain text', '${%s}' % first_obj, ['${%s}' % first_obj, 1], '$ res{r}', '',
+            {'k1': 1}, '${%s}' % first_obj, 'x$res{r1}']
     for i in range(rng.randint(1, 3)):
         ns.append(['%s.v%d' % (rng.choice(homes), i), ['val', rng.choice(vals)]])
     if rng.random() < 0.3:
@@ -135,6 +139,9 @@ def _gen_arg(rng, ns, tree, tags):
         q = rng.random()
         if q < 0.4 or not tree:
             tags['exact_obj'] += 1
+            data = [n for n, s in ns if s[0] == 'val']
+            if data and rng.random() < 0.3:
+                return '${%s}' % rng.choice(data)
             return '${%s}' % rng.choice(copyable)
         if q < 0.7:
             tags['exact_res'] += 1
@@ -236,6 +243,11 @@ def gen(rng, tier):
 
 
 # ------------------------------------------------------------------ runner
+def _bits(x):
+    import struct
+    return int.from_bytes(struct.pack('>d', x), 'big')
+
+
 def _canon(v, ident):
     """observed Python value -> tagged JSON"""
     if v is None:
@@ -246,6 +258,8 @@ def _canon(v, ident):
         return ['i', v]
     if type(v) is str:
         return ['s', v]
+    if type(v) is float:
+        return ['r', 'KFloat', _bits(v)]
     if id(v) in ident:
         return ['r'] + ident[id(v)]
     if type(v) in (list, tuple):
@@ -337,7 +351,7 @@ def run(case):
         def load(self):
             self.loads += 1
             r = Obj()
-            ident[id(r)] = ['KRes', 100 + self.serial]
+            ident[id(r)] = ['KOther', 100 + self.serial]    # re-labelled below if it is the cached one
             keep.append(r)
             return r
 
@@ -368,6 +382,11 @@ def run(case):
         except Exception as ex:
             return {'err': type(ex).__name__, 'nconstr': len(log)}
         state['world'] = world
+        # "the loaded resource" of a handle is the value the handle holds now
+        for i, (p, k) in enumerate(case['tree']):
+            h = root.get(p)
+            if k == 'h' and h.cached:
+                ident[id(h())] = ['KRes', 100 + i]
         out = {}
         out['constr'] = [[s, [_canon(x, ident) for x in a],
                           [[k, _canon(v, ident)] for k, v in kw.items()]] for s, a, kw in log]
@@ -445,6 +464,8 @@ def enc_json(v, kt):
         return '(JBool %s)' % b(v)
     if isinstance(v, int):
         return '(JNum %s)' % z(v)
+    if isinstance(v, float):
+        return '(JRef KFloat %s)' % z(_bits(v))
     if isinstance(v, str):
         return '(JStr %s)' % s_(v)
     if isinstance(v, list):
